@@ -167,6 +167,9 @@ htp_status_t contract_htp_tx_process_request_headers(htp_tx_t *tx)
 __CPROVER_requires(C11_TX(tx))
 __CPROVER_requires(C11_GHOST_HDR(g_c11_hdr_cl) && C11_GHOST_HDR(g_c11_hdr_te) && C11_GHOST_HDR(g_c11_hdr_host) && C11_GHOST_HDR(g_c11_hdr_ct) && C11_GHOST_HDR(g_c11_hdr_ce))
 __CPROVER_requires(g_c11_seen_cl == 0 && g_c11_seen_ct == 0)
+#ifdef C11_DBG_REQ
+__CPROVER_requires(C11_DBG_REQ)
+#endif
 /* what the replaced value parsers are known to answer (each enforced on the real function by its own unit) */
 __CPROVER_requires((g_c11_te_chunked == HTP_OK || g_c11_te_chunked == HTP_ERROR) && (g_c11_hp_rc == HTP_OK || g_c11_hp_rc == HTP_ERROR))
 __CPROVER_requires((g_c11_hp_valid == 0 || g_c11_hp_valid == 1) && (g_c11_hp_invalid == 0 || g_c11_hp_invalid == 1) && (!g_c11_hp_valid ==> g_c11_hp_invalid))
@@ -180,6 +183,7 @@ __CPROVER_ensures(__CPROVER_return_value == HTP_OK ==> (T_FRAMED && T_HOSTED))
 __CPROVER_ensures(T_HOSTED ==> T_FRAMED)
 __CPROVER_ensures((!tx->connp->cfg->request_decompression_enabled || g_c11_hdr_ce == NULL || !g_c11_dec_fail) ==> T_FRAMED)
 __CPROVER_ensures((T_FRAMED && !g_c11_dup_fail && tx->request_method_number != HTP_M_PUT && (!T_HOST || g_c11_hp_rc == HTP_OK)) ==> T_HOSTED)
+#ifndef C11_NO_FRAMING
 /* ---- framing rows -------------------------------------------------------------------------------------- */
 /* 1. chunked T-E together with C-L: smuggling, body framed by the chunked coding */
 __CPROVER_ensures((T_FRAMED && T_CHUNKED && T_CL) ==> (HAS(tx->flags, HTP_REQUEST_SMUGGLING) && tx->request_transfer_coding == HTP_CODING_CHUNKED))
@@ -207,6 +211,8 @@ __CPROVER_ensures((T_FRAMED && tx->request_transfer_coding == HTP_CODING_INVALID
 __CPROVER_ensures((HAS(tx->flags, HTP_REQUEST_SMUGGLING) && !HAS(O(tx->flags), HTP_REQUEST_SMUGGLING)) ==> T_SMUGGLING_TRIGGER(tx))
 __CPROVER_ensures((HAS(tx->flags, HTP_REQUEST_INVALID_T_E) && !HAS(O(tx->flags), HTP_REQUEST_INVALID_T_E)) ==> (T_TE && (!T_CHUNKED || T_PROTO(tx) < HTP_PROTOCOL_1_1)))
 __CPROVER_ensures((HAS(tx->flags, HTP_REQUEST_INVALID_C_L) && !HAS(O(tx->flags), HTP_REQUEST_INVALID_C_L)) ==> (!T_TE && T_CL_BAD))
+#endif
+#ifndef C11_NO_HOST
 /* ---- host rows ----------------------------------------------------------------------------------------- */
 /* 9. no Host field on HTTP/1.1 or later */
 __CPROVER_ensures((T_HOSTED && !T_HOST && T_PROTO(tx) >= HTP_PROTOCOL_1_1) ==> HAS(tx->flags, HTP_HOST_MISSING))
@@ -227,5 +233,6 @@ __CPROVER_ensures((T_HOSTED && T_URIHOST(tx)) ==> (tx->request_hostname != NULL 
 /* 13. no other indicator bit is touched here */
 __CPROVER_ensures((tx->flags & ~(HTP_REQUEST_SMUGGLING | HTP_REQUEST_INVALID_T_E | HTP_REQUEST_INVALID_C_L | HTP_REQUEST_INVALID | HTP_HOST_MISSING | HTP_HOST_AMBIGUOUS | HTP_HOSTH_INVALID | HTP_AUTH_INVALID)) ==
                   (O(tx->flags) & ~(HTP_REQUEST_SMUGGLING | HTP_REQUEST_INVALID_T_E | HTP_REQUEST_INVALID_C_L | HTP_REQUEST_INVALID | HTP_HOST_MISSING | HTP_HOST_AMBIGUOUS | HTP_HOSTH_INVALID | HTP_AUTH_INVALID)))
+#endif
 ;
 #endif
